@@ -143,7 +143,13 @@ class Gen:
             return f"{self.vol()} {g['rep']} {self.page()}"
         if g["form"] == "short":
             return f"{self.vol()} {g['rep']} at {self.page()}"
-        return g["t"]
+        t = g["t"]
+        # citations to several sections / paragraphs double the sign
+        if "§" in t and "§§" not in t and self.r.random() < 0.3:
+            t = t.replace("§", "§§", 1)
+        elif "¶" in t and "¶¶" not in t and self.r.random() < 0.2:
+            t = t.replace("¶", "¶¶", 1)
+        return t
 
     # -- citation forms -------------------------------------------------
     def cite(self, g=None):
